@@ -67,9 +67,13 @@ def judge(ctx, vk, dom, Q, sig, fmt, digest, allow_truncate, cls, key, cname, d=
     # bytes-like objects are legal inputs: every fourth call passes the same bytes as bytearray / memoryview
     _BL["i"] += 1
     sig_arg, dig_arg = sig, digest
-    if _BL["i"] % 4 == 0 and fmt != "strings":
-        sig_arg = bytearray(sig) if _BL["i"] % 8 else memoryview(bytes(sig))
-        dig_arg = memoryview(bytes(digest)) if _BL["i"] % 8 else bytearray(digest)
+    if _BL["i"] % 3 == 0:
+        cn1, dig_arg = gen.pick_container(digest, _BL["i"] // 3)
+        if fmt == "strings":
+            if len(sig) == 2:
+                sig_arg = [gen.pick_container(sig[0], _BL["i"] // 3 + 1)[1], gen.pick_container(sig[1], _BL["i"] // 3 + 2)[1]]
+        else:
+            sig_arg = gen.pick_container(sig, _BL["i"] // 3 + 5, exotic=True)[1]
         ctx.count("bytes_like_arguments")
     try:
         if via_verify is not None:
@@ -104,7 +108,8 @@ def judge(ctx, vk, dom, Q, sig, fmt, digest, allow_truncate, cls, key, cname, d=
         if d is not None and cname in lib.BY_NAME:
             rp = sigs.sk_repro(cname, d) + ("sig = %s\ndigest = %r\ntry:\n    print('library:', vk.verify_digest(sig, digest, sigdecode=util.sigdecode_%s, allow_truncate=%r))\n"
                                            "except Exception as e:\n    print('library raised', type(e).__name__, e)\nprint('expected: %s')\n" % (sig_src, bytes(digest), fmt, allow_truncate, want))
-        ctx.violation(mech, "%s %s [%s]: expected %s, library %s; decoded (r,s)=%r" % (cname, cls, fmt, want, outcome, rs),
+        rs_txt = None if rs is None else tuple(v if v.bit_length() < 2000 else "<%d-bit integer>" % v.bit_length() for v in rs)
+        ctx.violation(mech, "%s %s [%s]: expected %s, library %s; decoded (r,s)=%r" % (cname, cls, fmt, want, outcome, rs_txt),
                       dict(curve=cname, d=d, Q=Q, sig=sig if not isinstance(sig, tuple) else list(sig), digest=digest, fmt=fmt, allow_truncate=allow_truncate, rs=rs), rp)
 
 
@@ -293,6 +298,10 @@ def run(ctx, name, kind, **kw):
                 "indefinite": b"\x30\x80" + body + b"\x00\x00", "wrong_tag": b"\x31" + der[1:], "int_tag": der_ref.enc_seq(b"\x04" + ri[1:], si),
                 "len+1": b"\x30" + der_ref.enc_len(len(body) + 1) + body, "len-1": b"\x30" + der_ref.enc_len(len(body) - 1) + body,
                 "empty": b"", "nested": der_ref.enc_seq(der), "octet_wrapped": der_ref.enc_octet(der),
+                # canonical DER, absurdly large values (2000-byte INTEGERs): out of range, must simply be refused
+                "giant_r": der_ref.enc_sig(int.from_bytes(b"\x01" + bytes(range(256)) * 8, "big"), s),
+                "giant_s": der_ref.enc_sig(r, int.from_bytes(b"\x7f" * 2000, "big")),
+                "giant_both": der_ref.enc_sig(1 << 16000, 1 << 15999),
             }
             for nm, blob in defects.items():
                 JJ("enc.der_defect", blob, "der", nm)
